@@ -24,10 +24,28 @@ type Object struct {
 	// Virtual objects back slices whose length is symbolic: cells are
 	// materialised on demand, everything beyond is the zero value of Elem.
 	Virtual bool
+	// lockset monitor (C10): Own = allocated by pogreb's own (non-harness) code
+	Own  bool
+	Mons []*monState // per cell, allocated lazily
+	// accesses by the allocating thread up to its next lock release are initialisation
+	allocThread, allocEpoch int
+}
+
+type monState struct {
+	phase   int
+	first   int
+	shared  bool
+	written bool
+	cand    []int
+	wWhere  string
 }
 
 func (o *Object) clone(owner int) *Object {
-	n := &Object{owner: owner, IsMap: o.IsMap, Note: o.Note, Elem: o.Elem, Tag: o.Tag, Virtual: o.Virtual}
+	n := &Object{owner: owner, IsMap: o.IsMap, Note: o.Note, Elem: o.Elem, Tag: o.Tag, Virtual: o.Virtual, Own: o.Own, allocThread: o.allocThread, allocEpoch: o.allocEpoch}
+	if o.Mons != nil {
+		n.Mons = append([]*monState(nil), o.Mons...)
+	}
+	_ = 0
 	if o.Cells != nil {
 		n.Cells = make([]Value, len(o.Cells), cap(o.Cells))
 		copy(n.Cells, o.Cells)
@@ -100,6 +118,7 @@ type Thread struct {
 	name      string
 	locks     []int // object ids (mutex cell identity) currently held: encoded obj<<20|off
 	nlock     int
+	epoch     int // incremented at every lock release
 }
 
 func (t *Thread) clone() *Thread {
@@ -145,6 +164,8 @@ type State struct {
 	events   []string
 	waitMap  map[int]waitSpec
 	threadSeq int
+	phase    int
+	exiting  *Thread // transient: thread whose exit is being scheduled
 	covers   map[string]bool
 }
 
@@ -196,6 +217,7 @@ func (s *State) clone() *State {
 	}
 	n.instrChoices = append([]int(nil), s.instrChoices...)
 	n.threadSeq = s.threadSeq
+	n.phase = s.phase
 	if s.waitMap != nil {
 		n.waitMap = make(map[int]waitSpec, len(s.waitMap))
 		for k, v := range s.waitMap {
@@ -218,6 +240,9 @@ func (s *State) frame() *Frame   { return s.thread().top() }
 
 func (s *State) newObject(cells []Value, note string) int {
 	o := &Object{Cells: cells, owner: s.id, Note: note}
+	if len(s.threads) > 0 && s.cur < len(s.threads) {
+		o.allocThread, o.allocEpoch = s.threads[s.cur].id+1, s.threads[s.cur].epoch
+	}
 	s.heap = append(s.heap, o)
 	return len(s.heap) - 1
 }
@@ -647,7 +672,14 @@ func shortFile(f string) string {
 	return f
 }
 
+var violClassCount = map[string]int{}
+
 func (s *State) reportWith(kind, msg string, m Model, verdict string) {
+	cls := kind + "|" + msg
+	violClassCount[cls]++
+	if violClassCount[cls] > 20 {
+		return // keep a bounded number of representatives per class
+	}
 	v := Violation{Case: caseIndex, Kind: kind, Msg: msg, Where: s.where(), Trace: append([]Choice(nil), s.trace...), Verdict: verdict,
 		Obs: append([]string(nil), s.obs...), Events: append([]string(nil), s.events...)}
 	if m != nil {
@@ -732,3 +764,86 @@ func sortedKeys(m map[string]bool) []string {
 type engineErr string
 
 func (e engineErr) Error() string { return string(e) }
+
+// ---------- lockset monitor ----------
+
+// monitor records an access of the current thread to cells [off, off+n) of object id.
+func (s *State) monitor(fr *Frame, id, off, n int, write bool) {
+	if s.flags["lockset"] == 0 || id == 0 {
+		return
+	}
+	live := 0
+	for _, t := range s.threads {
+		if !t.done {
+			live++
+		}
+	}
+	if live < 2 || fr.info.harness {
+		return
+	}
+	o := s.heap[id]
+	if !o.Own {
+		return
+	}
+	th := s.thread()
+	if o.allocThread == th.id+1 && o.allocEpoch == th.epoch {
+		return // initialisation before the object can have been published
+	}
+	var L []int
+	for _, l := range th.locks {
+		if l > 0 {
+			L = append(L, l)
+		} else if !write {
+			L = append(L, -l)
+		}
+	}
+	if n > 64 {
+		n = 64 // large copies: sample the first cells
+	}
+	var wo *Object
+	for c := off; c < off+n; c++ {
+		var m *monState
+		if c < len(o.Mons) {
+			m = o.Mons[c]
+		}
+		var nm monState
+		if m == nil || m.phase != s.phase {
+			nm = monState{phase: s.phase, first: th.id, written: write, cand: L}
+		} else {
+			nm = *m
+			var cc []int
+			for _, x := range nm.cand {
+				for _, y := range L {
+					if x == y {
+						cc = append(cc, x)
+					}
+				}
+			}
+			nm.cand = cc
+			if write {
+				nm.written = true
+			}
+			if th.id != nm.first {
+				nm.shared = true
+			}
+		}
+		if write && nm.wWhere == "" {
+			nm.wWhere = s.where()
+		}
+		if nm.shared && nm.written && len(nm.cand) == 0 && (m == nil || !(m.shared && m.written && len(m.cand) == 0)) {
+			w := nm.wWhere
+			if k := strings.Index(w, " < "); k > 0 {
+				w = w[:k]
+			}
+			s.reportWith("race", fmt.Sprintf("lockset: cell %d of object %q (allocated by pogreb) is accessed by several threads, at least once for writing, with no common lock; a write is at %s", c, o.Note, w), s.currentModel(), "sat")
+		}
+		if wo == nil {
+			wo = s.wobj(id)
+			o = wo
+		}
+		for len(wo.Mons) <= c {
+			wo.Mons = append(wo.Mons, nil)
+		}
+		wo.Mons[c] = &nm
+	}
+}
